@@ -53,7 +53,7 @@ PROPS = {
         'level': 'proof',
         'level_text': 'Write side: unbounded deductive proof (Verus/Z3) that every public mutator of EmbeddedWal (append_entry, record_checkpoint, sentinel writers, and write_record itself; stats read-only) preserves the representation invariant wf and moves the ghost view pending() = records a scan of the region returns with sequence > checkpoint exactly as the reference list does, for all region sizes, payload sizes and histories (invariant, no bound); rejected appends leave the object unchanged. Functions are extracted verbatim from src/io/wal.rs on every run. Scan side: scan_records itself is proved in Verus (walscan unit, unbounded: a successful scan is exactly the spec scan of the region). Its callers (BOUNDED, Kani, modular): records_after / pending_records / open / open_read_only return exactly the scanned records with sequence above the requested one, in order, payloads untouched, and set sequence / pending_bytes / write_head / checkpoint_sequence from the scan (0, 1, 2 scanned records with symbolic sequences and payload bytes) - verified against the contract of scan_records; write_record and write_zero_header are checked bit-precisely on an in-memory disk for enumerated lengths / positions.',
         'level_note': 'Level proof refers to the write-side protocol (the invariant over all histories) and to scan_records (Verus, with four declared expression rewrites); the callers of scan_records (records_after / open) are bounded and modular (Kani, <= 2 records), and one bounded native stand-in covers the converse direction of the scan. Also assumed: File model (A-FILE), blake3 determinism, le-bytes axiom, range preconditions (wal_size <= 2^62, sequence < u64::MAX, payload >= 1 byte). Callers in mutation.rs are not under contract.',
-        'technique': 'Verus data-structure invariant + ghost view over the extracted real methods; Kani modular harnesses (callee contract stubs) for the scan side',
+        'technique': 'Verus data-structure invariant + ghost view over the extracted real methods (incl. write_record and scan_records); Kani modular harnesses (callee contract stubs) for the callers of the scan; one labelled bounded native enumeration stand-in',
         'design_ref': 'DESIGN.md section 3 (C05), Appendix A',
         'verus': ['wal', 'walscan'],
         'kani': [
@@ -108,7 +108,7 @@ PROPS = {
         'level': 'model_checking',
         'level_text': 'Header and commit-footer codecs: complete proofs (Kani/CBMC, loop-free harnesses over ALL header values, ALL 4096-byte images, ALL footer values, ALL 56-byte images, compiled inside the real crate): decode(encode(v)) == v, encode rejects exactly the invalid headers, an accepted image is the canonical encoding of the value returned (so a wrong magic/version/spec/wal_offset/wal_size is rejected and no different value is returned). Time index, read side: read_track is PROVED in Verus without bound (timeindex unit; generic reader instantiated with the File model, five declared expression rewrites): Ok(v) only if the magic matches, length >= 12 and length - 12 == 16 * count, and then v holds exactly the count entries the bytes encode, in order, sorted by (timestamp, frame_id) - no truncation, nothing invented; file bytes unchanged; terminates. Time index, write side and round trip: BOUNDED (n <= 3 entries, every i64/u64 value): append_track sorts by (timestamp, frame_id), permutes, length = 12+16n, read_track returns exactly those; an arbitrary image of 12+16n bytes with an arbitrary declared length is accepted only with the right magic, length and order, and never panics. read_toc (Verus, unbounded, over the File model): a TOC is returned only if the trailing 56 bytes decode as a footer whose toc_len equals the length of the bytes between header.footer_offset and the footer, whose hash matches those bytes, and which pass verify_toc_prefix - i.e. inconsistent length / checksum fields are rejected on the header-directed read path. TOC: only the decision logic of Toc::verify_checksum is verified (modular, encoders and hash replaced by ghost functions): the stored checksum is accepted iff it is the digest of a zero-checksum encoding in a format that covers every optional field present (current; V2 only without replay_manifest; V1 only without memories_track and replay_manifest). Toc::encode / decode themselves (serde/bincode) are NOT covered.',
         'level_note': 'Level is model_checking because the write side of the time index (append_track: sort_by_key closure) is bounded by the entry count (n <= 3; n <= 2 in the quick tier) and the TOC codec is covered only in the decision logic of verify_checksum (serde-derived bincode visitors over String/BTreeMap are outside both tools). The header/footer parts are complete (no bound). blake3::Hasher is stubbed in the time-index harnesses (the checksum value plays no role in these obligations).',
-        'technique': 'Kani loop-free full-domain codec harnesses (complete) + bounded Kani harnesses for the time index, inside the real crate',
+        'technique': 'Kani loop-free full-domain codec harnesses (complete) inside the real crate; Verus contracts on the extracted read_toc and read_track (unbounded); bounded Kani harnesses for the time-index write side; Kani modular harness for the TOC checksum decision',
         'design_ref': 'DESIGN.md section 3 (C30)',
         'verus': ['readtoc', 'timeindex'],
         'kani': [
@@ -136,7 +136,7 @@ PROPS = {
         'level': 'model_checking',
         'level_text': 'Term filter: for hash lists of exactly n <= 6 hashes (n <= 3 quick), EVERY 64-bit hash value, every supported filter size (16/32/64 bytes) and every index i, term_filter_maybe_contains(build_term_filter(hs, size), hs[i]) holds (Kani/CBMC on the real functions; BOUNDED by n); term_filter_maybe_contains is monotone in the filter for all 16-byte filters and all hashes (complete); empty/full filter extremes (complete). Entry and header codecs (SketchEntrySmall/Medium, SketchTrackHeader): complete loop-free round-trip proofs over all values / all images.',
         'level_note': 'Bounded in the number of token hashes. The tokenizer -> compute_token_weights -> hash_token chain (NFKC, HashMap, blake3) that feeds build_term_filter is ASSUMED to hand every produced token hash to build_term_filter (A-TOKCHAIN, unchecked). The whole-track clause (write_sketch_track/read_sketch_track through HashMap<FrameId,_>) is covered only through the entry/header codecs; see not_covered and known_findings.txt.',
-        'technique': 'Kani bounded harnesses (filter) + loop-free full-domain codec harnesses (complete) inside the real crate',
+        'technique': 'Kani bounded harnesses (filter) + loop-free full-domain codec harnesses (complete) inside the real crate; Verus totality contract on the extracted read_sketch_track',
         'design_ref': 'DESIGN.md section 3 (C39)',
         'verus': ['sketchread'],
         'kani': [
@@ -243,7 +243,7 @@ PROPS = {
         'level': 'model_checking',
         'level_text': 'DECODER LAYER ONLY.  Proved without bound (Verus on functions extracted verbatim; overflow, index bounds and termination are proof obligations): find_last_valid_footer on every byte string; locate_footer_window (src/memvid/lifecycle.rs, the window-doubling scan used by open / open_read_only / verify) on every byte string, checked against find_last_valid_footer\'s contract; read_toc (src/memvid/lifecycle.rs, the header-directed TOC read of open / doctor) on every file image and every header over the File model: no underflow in `len - footer_offset` / `buf.len() - FOOTER_SIZE`, no out-of-range slice, and a returned TOC is the decoding of exactly the bytes between footer_offset and the trailing footer whose length, hash and prefix guard were checked.  Proved complete by loop-free Kani harnesses over the full input domain: HeaderCodec::decode on all 4096-byte images, CommitFooter::decode on all 56-byte images and on every wrong length, SketchTrackHeader::from_bytes / SketchEntrySmall::from_bytes on all images.  EmbeddedWal::scan_records on every region image over the File model (Verus walscan unit: no overflow, no out-of-range index, terminates); read_track on every file image, offset and declared length (Verus timeindex unit: no arithmetic overflow, terminates; the allocation-size panic class is covered by the Kani harnesses below); read_sketch_track on every file image, offset and declared length (Verus sketchread unit: no arithmetic overflow in the length validation - this obligation found the `entry_count * entry_size` overflow repaired in fix 172834d - the entry loop terminates, the file is not modified). BOUNDED (Kani): read_track on every image of 12 / 28 bytes with every declared length (entry count and length fields fully symbolic); verify_toc_prefix (the guard in front of the TOC decoder) on every image of 0 / 8 / 23 / 24 / 120 bytes: never panics and accepts exactly the images whose version and counts are within the limits and whose minimum payload fits; Kani checks every panic, arithmetic overflow, slice index, unwrap and allocation-size failure on the explored paths.',
         'level_note': 'This claim detects regressions in the byte decoders and in the footer window scan; it does NOT cover the layers above them: TOC decode under catch_unwind, index loading, tantivy, recover_toc / doctor / verify logic (1 600 + 1 700 lines of Memvid code) are outside both tools (DESIGN.md section 4, reason W).  read_sketch_track is covered for totality by the sketchread Verus unit (the HashMap-backed track and the entry decoders enter as opaque external functions); its round-trip behaviour is not (see C39).',
-        'technique': 'Verus totality proofs (bounds, overflow, decreases) on extracted functions + Kani full-domain / bounded decoder harnesses',
+        'technique': 'Verus totality contracts (bounds, overflow, decreases) on six extracted functions + Kani full-domain / bounded decoder harnesses',
         'design_ref': 'DESIGN.md section 3 (C22)',
         'verus': ['footer', 'lifecycle', 'readtoc', 'walscan', 'timeindex', 'sketchread'],
         'kani': [
